@@ -560,6 +560,17 @@ func lockFromCall(v ssa.Value, depth int) string {
 // noteCallEpochs records, for every lock of the order, how many acquisitions had happened when the
 // callee was last called: lockepochAt("lock", "Callee") in assertions.
 func (g *Gen) noteCallEpochs(callee *ssa.Function, st *State) {
+	// "opt: count-calls=A,B": callcount("A") in assertions is the number of calls of A so far (counted
+	// from the loop head inside a loop: the counters are not havoc'd there, so inside an iteration the
+	// value is a lower bound of the real count)
+	if cc := g.con.Opts["count-calls"]; cc != "" && callee != nil {
+		for _, n := range strings.Split(cc, ",") {
+			if strings.TrimSpace(n) == callee.Name() {
+				k := "lockn.calls." + callee.Name()
+				st.ghost[k] = "(+ " + g.ghostGet(st, k) + " 1)"
+			}
+		}
+	}
 	order := g.con.Opts["lock-order"]
 	if order == "" || callee == nil {
 		return
